@@ -32,9 +32,20 @@ pub struct Fail {
 /// surrounding schema it shows up in. Each rule is deliberately narrow (type present + exact symptom).
 pub fn known_rule(kind: &str, detail: &str, schema: &Schema, o: &Opts) -> Option<String> {
     let has_ree = schema.fields().iter().any(|f| contains_type(f.data_type(), &|d| matches!(d, DataType::RunEndEncoded(..))));
+    let top_union = schema.fields().iter().any(|f| matches!(f.data_type(), DataType::Union(..)));
+    if kind == "flight-encode-err" && detail.contains("no dict id for field") {
+        // utils::batches_to_flight_data encodes the schema with a throw-away DictionaryTracker
+        return Some("c04:flight-utils:batches_to_flight_data:dictionary-column-rejected:no-dict-id".to_string());
+    }
+    if kind == "flight-schema-differs" && top_union && detail.contains("@union-field-nullable-cleared") {
+        return Some("c04:flight-encoder:union-field:nullable-flag-cleared".to_string());
+    }
+    if kind == "flight-schema-differs" && top_union && detail.contains("@union-field-metadata-dropped") {
+        return Some("c04:flight-encoder:union-field:field-metadata-dropped".to_string());
+    }
     if has_ree && o.ver != 0 && (kind.ends_with("read-err") || kind.ends_with("read-panic")) {
         // writer emits a validity buffer for run-end encoded arrays under metadata V4, reader never reads one
-        return Some(format!("c04:ree-with-metadata-v4:{kind}"));
+        return Some(format!("c04:ree-with-metadata-v4:{}", if kind.ends_with("panic") { "reader-panics" } else { "reader-rejects" }));
     }
     if has_ree && kind.ends_with("read-err") && detail.contains("run_ends array should be strictly positive. Found value 0 at index 0") {
         // zero-length slice of a run array is written with a single run end 0
@@ -71,7 +82,9 @@ pub fn report(st: &mut Stats, order: u64, rep: &Rep, fails: &[Fail], pairs: &[(S
         let mut who: Vec<String> = vec![];
         let mut whole_writers = 0;
         for w in &writers {
-            let readers: BTreeSet<&String> = pairs.iter().filter(|p| &&p.0 == w).map(|p| &p.1).collect();
+            // projected reads only exist for the readers that take a projection
+            let proj_only = kind.starts_with("projection");
+            let readers: BTreeSet<&String> = pairs.iter().filter(|p| &&p.0 == w).map(|p| &p.1).filter(|r| !proj_only || !r.starts_with("StreamDecoder")).collect();
             let failing: BTreeSet<&String> = fs.iter().filter(|f| &&f.writer == w).filter_map(|f| f.reader.as_ref()).collect();
             let write_failed = fs.iter().any(|f| &&f.writer == w && f.reader.is_none());
             if write_failed || (!readers.is_empty() && failing.len() == readers.len()) {
@@ -411,8 +424,7 @@ fn multi_types(full: bool) -> Vec<DataType> {
         dict_of(Int8, Utf8),
         ree_of(Int16, Int32),
         union_of(vec![(0, "i", Int32), (5, "s", Utf8)], arrow_schema::UnionMode::Dense),
-        // (quick tier: triples range over the 8 types above)
-        Boolean,
+                Boolean,
         Utf8,
         FixedSizeBinary(3),
         map_of(Utf8, Int32),
@@ -537,7 +549,7 @@ struct MultiSpace {
 fn multi_space(ctx: &Ctx) -> MultiSpace {
     let nt = multi_types(!ctx.quick()).len();
     // triples range over the first `n3` types of the menu, pairs and singles over all of it
-    let n3 = if ctx.quick() { 8 } else { nt };
+    let n3 = if ctx.quick() { 6 } else { nt };
     let mut schemas: Vec<Vec<usize>> = vec![vec![]];
     for a in 0..nt {
         schemas.push(vec![a]);
@@ -569,7 +581,7 @@ fn multi_space(ctx: &Ctx) -> MultiSpace {
         rowseqs.extend(next.iter().cloned());
         last = next;
     }
-    let layouts = if ctx.quick() { vec![Layout::Compact, Layout::Sliced(1, 0), Layout::Sliced(8, 1), Layout::Sliced(65, 1)] } else { vec![Layout::Compact, Layout::Sliced(1, 0), Layout::Sliced(3, 1), Layout::Sliced(8, 1), Layout::Sliced(9, 0), Layout::Sliced(63, 1), Layout::Sliced(64, 0), Layout::Sliced(65, 1)] };
+    let layouts = if ctx.quick() { vec![Layout::Compact, Layout::Sliced(1, 0), Layout::Sliced(65, 1)] } else { vec![Layout::Compact, Layout::Sliced(1, 0), Layout::Sliced(3, 1), Layout::Sliced(8, 1), Layout::Sliced(9, 0), Layout::Sliced(63, 1), Layout::Sliced(64, 0), Layout::Sliced(65, 1)] };
     MultiSpace { schemas, rowseqs, layouts }
 }
 
@@ -635,13 +647,39 @@ pub fn flight_expected_schema(schema: &Schema, resend: bool) -> Schema {
     Schema::new_with_metadata(fields, schema.metadata().clone())
 }
 
+/// Tags the case "the schemas differ only in the nullable flag / the metadata of top-level union fields".
+fn union_field_tags(exp: &Schema, got: &Schema) -> String {
+    if exp.fields().len() != got.fields().len() {
+        return String::new();
+    }
+    let (mut nullable, mut md) = (false, false);
+    let mut fixed = vec![];
+    for (e, g) in exp.fields().iter().zip(got.fields().iter()) {
+        if matches!(e.data_type(), DataType::Union(..)) {
+            if e.is_nullable() && !g.is_nullable() {
+                nullable = true;
+            }
+            if !e.metadata().is_empty() && g.metadata().is_empty() {
+                md = true;
+            }
+            fixed.push(g.as_ref().clone().with_nullable(e.is_nullable()).with_metadata(e.metadata().clone()));
+        } else {
+            fixed.push(g.as_ref().clone());
+        }
+    }
+    if Schema::new_with_metadata(fixed, got.metadata().clone()) != *exp {
+        return String::new();
+    }
+    format!("{}{}", if nullable { " @union-field-nullable-cleared" } else { "" }, if md { " @union-field-metadata-dropped" } else { "" })
+}
+
 /// Compare decoded Flight batches with the model. `split` = batches may have been split: rows are
 /// compared after concatenation (order preserved), otherwise batch by batch.
-pub fn flight_compare(exp_schema: &Schema, model: &[MBatch], got_schema: Option<&SchemaRef>, got: &[RecordBatch], split: bool) -> Result<(), Mismatch> {
+pub fn flight_compare(exp_schema: &Schema, model: &[MBatch], got_schema: Option<&SchemaRef>, got: &[RecordBatch], split: bool, drop_empty: bool) -> Result<(), Mismatch> {
     match got_schema {
         Some(s) => {
             if s.as_ref() != exp_schema {
-                return Err(Mismatch { kind: "schema-differs", family: schema_diff_class(exp_schema, s).into(), detail: format!("expected {exp_schema:?} got {s:?}") });
+                return Err(Mismatch { kind: "schema-differs", family: schema_diff_class(exp_schema, s).into(), detail: format!("{}{}", schema_diff(exp_schema, s), union_field_tags(exp_schema, s)) });
             }
         }
         None => return Err(Mismatch { kind: "schema-missing", family: "-".into(), detail: "decoder saw no schema".into() }),
@@ -649,7 +687,7 @@ pub fn flight_compare(exp_schema: &Schema, model: &[MBatch], got_schema: Option<
     if !split {
         // no splitting requested: non-empty batches map one to one (the encoder emits nothing for a
         // 0-row batch: "split into pieces of rows" yields no piece; recorded as an outcome by the caller)
-        let ne: Vec<MBatch> = model.iter().filter(|m| m.rows > 0).cloned().collect();
+        let ne: Vec<MBatch> = model.iter().filter(|m| m.rows > 0 || !drop_empty).cloned().collect();
         let d = Decoded { schema: got_schema.unwrap().clone(), batches: got.to_vec(), custom_md: None };
         return compare(exp_schema, &ne, &d);
     }
@@ -682,81 +720,78 @@ pub fn flight_compare(exp_schema: &Schema, model: &[MBatch], got_schema: Option<
     Ok(())
 }
 
-/// Which (config, type) cells does the Flight encoder document / implement as unsupported?
-/// Returns Some(reason) when an encoder `Err` is an accepted, recorded outcome.
-fn flight_encode_err_accepted(dt: &DataType, cfg: &FlightCfg, msg: &str) -> Option<&'static str> {
-    let _ = (dt, cfg, msg);
-    None
+struct FlightOut {
+    n: u64,
+    fails: Vec<Fail>,
+    pairs: Vec<(String, String)>,
+    schema: SchemaRef,
 }
 
+/// One Flight case: FlightDataEncoder -> both decoders, and (default configuration only) the utils pair.
 #[allow(clippy::too_many_arguments)]
-fn flight_case(st: &mut Stats, order: u64, full: bool, ty: usize, dt: &DataType, nullable: bool, cidx: &[usize], lay: Layout, o: &Opts, cfg: &FlightCfg, nbatches: usize) {
-    let col = col_from_idx(dt, nullable, cidx);
-    if !layout_applies(dt, &col, lay) || opts_invalid(o) {
-        return;
+fn flight_eval(st: &mut Stats, dt: &DataType, nullable: bool, col: &[Val], lay: Layout, o: &Opts, cfg: &FlightCfg, nbatches: usize, md: bool) -> Result<FlightOut, (String, String)> {
+    let mut f = Field::new("c", dt.clone(), nullable);
+    if md {
+        f = f.with_metadata(md_map(&[("k", "v")]));
     }
-    let case = || json!({"sub": "flight", "full": full, "ty": ty, "type": format!("{dt}"), "nullable": nullable, "col_idx": cidx, "col": show_col(&col), "layout": layout_json(lay), "opts": o.json(),
-        "cfg": {"max": cfg.max_size, "resend": cfg.resend, "with_schema": cfg.with_schema}, "nbatches": nbatches});
-    let schema: SchemaRef = Arc::new(Schema::new(vec![Field::new("c", dt.clone(), nullable)]));
+    let mut sch = Schema::new(vec![f]);
+    if md {
+        sch = sch.with_metadata(md_map(&[("schema-k", "schema-v")]));
+    }
+    let schema: SchemaRef = Arc::new(sch);
     let mut batches = vec![];
     let mut model = vec![];
     for b in 0..nbatches {
         // later batches rotate the column so that batches differ
-        let mut c = col.clone();
+        let mut c = col.to_vec();
         if !c.is_empty() {
             let k = b % c.len();
             c.rotate_left(k);
         }
-        let arr = match realise(dt, &c, lay) {
-            Ok(a) => a,
-            Err(e) => {
-                st.violate(order, format!("harness:realise:{}:{}", family(dt), lay.class()), e, case);
-                return;
-            }
-        };
-        batches.push(make_batch(&schema, c.len(), vec![arr]).unwrap());
+        let arr = realise(dt, &c, lay).map_err(|e| (format!("harness:realise:{}:{}", family(dt), lay.class()), e))?;
+        batches.push(make_batch(&schema, c.len(), vec![arr]).map_err(|e| ("harness:batch:flight".to_string(), e))?);
         model.push(MBatch { rows: c.len(), cols: vec![c] });
     }
     let fam = family(dt);
-    let lc = lay.class();
-    let oc = format!("{}:{}", o.class(), cfg.class());
-    let mut n = 0u64;
-    // --- FlightDataEncoder
-    n += 1;
+    let mut out = FlightOut { n: 0, fails: vec![], pairs: vec![], schema: schema.clone() };
+    let enc_name = "FlightDataEncoder";
+    out.n += 1;
     match flight::encode(&schema, &batches, o, cfg) {
         Err(e) => {
-            if let Some(reason) = flight_encode_err_accepted(dt, cfg, &e.msg) {
-                st.outcome(&format!("flight-encode-unsupported:{reason}"));
-            } else {
-                st.outcome("flight-encode-err");
-                st.violate(order, format!("c04:flight:{}:{fam}:{lc}:{oc}", if e.panic { "encode-panic" } else { "encode-err" }), format!("FlightDataEncoder: {}", e.msg), case);
-            }
+            out.pairs.push((enc_name.into(), "-".into()));
+            st.outcome("flight-encode-err");
+            out.fails.push(Fail { writer: enc_name.into(), reader: None, kind: if e.panic { "flight-encode-panic".into() } else { "flight-encode-err".into() }, family: fam.clone(), detail: e.msg });
         }
         Ok(fd) => {
             let exp_schema = flight_expected_schema(&schema, cfg.resend);
             if !cfg.with_schema && nbatches == 0 {
+                out.pairs.push((enc_name.into(), "-".into()));
                 if !fd.is_empty() {
-                    st.violate(order, "c04:flight:messages-without-input".to_string(), format!("{} messages from an empty input without schema", fd.len()), case);
+                    out.fails.push(Fail { writer: enc_name.into(), reader: None, kind: "flight-messages-without-input".into(), family: "-".into(), detail: format!("{} messages from an empty input without schema", fd.len()) });
                 }
             } else {
                 let split = cfg.max_size.is_some();
                 for (rname, res) in [("FlightRecordBatchStream", flight::decode_stream(&fd)), ("FlightDataDecoder", flight::decode_low(&fd))] {
-                    n += 1;
+                    out.n += 1;
+                    out.pairs.push((enc_name.into(), rname.into()));
                     match res {
                         Err(e) => {
                             st.outcome("flight-decode-err");
-                            st.violate(order, format!("c04:flight:{}:{fam}:{lc}:{oc}:{rname}", if e.panic { "decode-panic" } else { "decode-err" }), format!("{rname}: {}", e.msg), case);
+                            out.fails.push(Fail { writer: enc_name.into(), reader: Some(rname.into()), kind: if e.panic { "flight-read-panic".into() } else { "flight-read-err".into() }, family: fam.clone(), detail: e.msg });
                         }
-                        Ok(d) => match flight_compare(&exp_schema, &model, d.schema.as_ref(), &d.batches, split) {
+                        Ok(d) => match flight_compare(&exp_schema, &model, d.schema.as_ref(), &d.batches, split, true) {
                             Ok(()) => {
                                 st.outcome(&format!("ok:flight-{}>{rname}", if cfg.resend { "resend" } else { "hydrate" }));
                                 if !split && d.batches.len() < model.len() {
                                     st.outcome("flight:zero-row-batch-not-transmitted");
                                 }
+                                if d.batches.len() > model.len() {
+                                    st.outcome("flight:batch-split");
+                                }
                             }
                             Err(m) => {
                                 st.outcome(&format!("flight-mismatch:{}", m.kind));
-                                st.violate(order, format!("c04:flight:{}:{}:{lc}:{oc}:{rname}", m.kind, m.family), format!("{rname}: {}", m.detail), case);
+                                out.fails.push(Fail { writer: enc_name.into(), reader: Some(rname.into()), kind: format!("flight-{}", m.kind), family: m.family, detail: m.detail });
                             }
                         },
                     }
@@ -764,38 +799,84 @@ fn flight_case(st: &mut Stats, order: u64, full: bool, ty: usize, dt: &DataType,
             }
         }
     }
-    // --- utils::batches_to_flight_data (default options only; no dictionary support is claimed by flight_data_to_batches)
+    // utils::batches_to_flight_data (always default options)
     if *o == Opts::default() && cfg.max_size.is_none() && !cfg.resend && cfg.with_schema {
-        n += 1;
+        let un = "batches_to_flight_data";
+        out.n += 1;
         match flight::util_encode(&schema, &batches) {
             Err(e) => {
+                out.pairs.push((un.into(), "-".into()));
                 st.outcome("flight-util-encode-err");
-                st.violate(order, format!("c04:flight-utils:{}:{fam}:{lc}", if e.panic { "encode-panic" } else { "encode-err" }), format!("batches_to_flight_data: {}", e.msg), case);
+                out.fails.push(Fail { writer: un.into(), reader: None, kind: if e.panic { "flight-encode-panic".into() } else { "flight-encode-err".into() }, family: fam.clone(), detail: e.msg });
             }
             Ok(fd) => {
-                n += 1;
+                out.n += 1;
+                out.pairs.push((un.into(), "FlightDataDecoder".into()));
                 match flight::decode_low(&fd) {
-                    Err(e) => st.violate(order, format!("c04:flight-utils:{}:{fam}:{lc}:FlightDataDecoder", if e.panic { "decode-panic" } else { "decode-err" }), format!("batches_to_flight_data -> FlightDataDecoder: {}", e.msg), case),
-                    Ok(d) => match flight_compare(&schema, &model, d.schema.as_ref(), &d.batches, false) {
+                    Err(e) => out.fails.push(Fail { writer: un.into(), reader: Some("FlightDataDecoder".into()), kind: if e.panic { "flight-read-panic".into() } else { "flight-read-err".into() }, family: fam.clone(), detail: e.msg }),
+                    Ok(d) => match flight_compare(&schema, &model, d.schema.as_ref(), &d.batches, false, false) {
                         Ok(()) => st.outcome("ok:batches_to_flight_data>FlightDataDecoder"),
-                        Err(m) => st.violate(order, format!("c04:flight-utils:{}:{}:{lc}:FlightDataDecoder", m.kind, m.family), format!("batches_to_flight_data -> FlightDataDecoder: {}", m.detail), case),
+                        Err(m) => out.fails.push(Fail { writer: un.into(), reader: Some("FlightDataDecoder".into()), kind: format!("flight-{}", m.kind), family: m.family, detail: m.detail }),
                     },
                 }
+                // flight_data_to_batches takes no dictionary state: only for dictionary-free types
                 if !contains_dictionary(dt) {
-                    n += 1;
+                    out.n += 1;
+                    out.pairs.push((un.into(), "flight_data_to_batches".into()));
                     match flight::util_decode(&fd) {
-                        Err(e) => st.violate(order, format!("c04:flight-utils:{}:{fam}:{lc}:flight_data_to_batches", if e.panic { "decode-panic" } else { "decode-err" }), format!("flight_data_to_batches: {}", e.msg), case),
-                        Ok(bs) => match flight_compare(&schema, &model, Some(&schema), &bs, false) {
+                        Err(e) => out.fails.push(Fail { writer: un.into(), reader: Some("flight_data_to_batches".into()), kind: if e.panic { "flight-read-panic".into() } else { "flight-read-err".into() }, family: fam.clone(), detail: e.msg }),
+                        Ok(bs) => match flight_compare(&schema, &model, Some(&schema), &bs, false, false) {
                             Ok(()) => st.outcome("ok:batches_to_flight_data>flight_data_to_batches"),
-                            Err(m) => st.violate(order, format!("c04:flight-utils:{}:{}:{lc}:flight_data_to_batches", m.kind, m.family), format!("flight_data_to_batches: {}", m.detail), case),
+                            Err(m) => out.fails.push(Fail { writer: un.into(), reader: Some("flight_data_to_batches".into()), kind: format!("flight-{}", m.kind), family: m.family, detail: m.detail }),
                         },
                     }
                 }
             }
         }
     }
-    st.add("flight", n, if col.is_empty() || nbatches == 0 { 0 } else { 1 });
+    Ok(out)
+}
+
+#[allow(clippy::too_many_arguments)]
+fn flight_case(st: &mut Stats, order: u64, full: bool, ty: usize, dt: &DataType, nullable: bool, cidx: &[usize], lay: Layout, o: &Opts, cfg: &FlightCfg, nbatches: usize, md: bool) {
+    let col = col_from_idx(dt, nullable, cidx);
+    if !layout_applies(dt, &col, lay) || opts_invalid(o) {
+        return;
+    }
+    let case = || json!({"sub": "flight", "full": full, "ty": ty, "type": format!("{dt}"), "nullable": nullable, "col_idx": cidx, "col": show_col(&col), "layout": layout_json(lay), "opts": o.json(),
+        "cfg": {"max": cfg.max_size, "resend": cfg.resend, "with_schema": cfg.with_schema}, "nbatches": nbatches, "md": md});
+    let out = match flight_eval(st, dt, nullable, &col, lay, o, cfg, nbatches, md) {
+        Ok(x) => x,
+        Err((fp, msg)) => {
+            st.violate(order, fp, msg, case);
+            return;
+        }
+    };
+    st.add("flight", out.n, if col.is_empty() || nbatches == 0 { 0 } else { 1 });
     st.sample("flight", case);
+    if !out.fails.is_empty() {
+        let cc = format!("{}{}", cfg.class(), if md { "+md" } else { "" });
+        let reduce = |kind: &str, fam: &str| -> (String, String, String) {
+            let same = |l: Layout, oo: &Opts, c: &FlightCfg| -> bool {
+                if !layout_applies(dt, &col, l) {
+                    return false;
+                }
+                let mut scratch = Stats::new();
+                match flight_eval(&mut scratch, dt, nullable, &col, l, oo, c, nbatches, md) {
+                    Ok(r) => r.fails.iter().any(|x| x.kind == kind && x.family == fam),
+                    Err(_) => false,
+                }
+            };
+            let d = Opts::default();
+            let oc = if *o != d && same(lay, &d, cfg) { d } else { *o };
+            let nosplit = FlightCfg { max_size: None, ..*cfg };
+            let c2 = if cfg.max_size.is_some() && same(lay, &oc, &nosplit) { nosplit } else { *cfg };
+            let lc = if lay != Layout::Compact && same(Layout::Compact, &oc, &c2) { Layout::Compact } else { lay };
+            (fam.to_string(), lc.class().to_string(), format!("{}:{}{}", oc.class(), c2.class(), if md { "+md" } else { "" }))
+        };
+        let rep = Rep { schema: &out.schema, opts: o, layout_class: lay.class().into(), opt_class: format!("{}:{cc}", o.class()), reduce: Some(&reduce) };
+        report(st, order, &rep, &out.fails, &out.pairs, &case);
+    }
 }
 
 fn flight_cfgs() -> Vec<FlightCfg> {
@@ -813,13 +894,13 @@ fn run_flight(ctx: &Ctx) -> Stats {
     let full = !ctx.quick();
     let types = grid(full);
     // columns: every column N<=2 (3 thorough) plus two longer cyclic ones (5 and 7 rows) so that splitting has remainders
-    let mut items = single_items(&types, ctx.pick(2, 3));
+    let mut items = single_items(&types, ctx.pick(1, 3));
     for (ti, dt) in types.iter().enumerate() {
         for nullable in [true, false] {
             if matches!(dt, DataType::Null) && !nullable {
                 continue;
             }
-            for len in [5usize, 7] {
+            for len in if ctx.quick() { vec![3usize, 7] } else { vec![5usize, 7] } {
                 items.push(Item { ty: ti, nullable, col: (0..len).collect() });
             }
         }
@@ -834,6 +915,9 @@ fn run_flight(ctx: &Ctx) -> Stats {
             let cdev = c.max_size.is_some() as usize + c.resend as usize + (!c.with_schema) as usize;
             if o.deviations() + cdev <= 2 {
                 for nb in [1usize, 2] {
+                    if nb == 2 && ctx.quick() && o.deviations() > 0 {
+                        continue;
+                    }
                     combos.push((*o, *c, nb));
                 }
                 if o.deviations() == 0 && c.max_size.is_none() {
@@ -859,8 +943,15 @@ fn run_flight(ctx: &Ctx) -> Stats {
         let (ii, li, ci) = plan[idx as usize];
         let it = &items[ii as usize];
         let (o, c, nb) = &combos[ci as usize];
-        flight_case(st, base + idx, full, it.ty, &types[it.ty], it.nullable, &it.col, layouts[li as usize], o, c, *nb);
+        flight_case(st, base + idx, full, it.ty, &types[it.ty], it.nullable, &it.col, layouts[li as usize], o, c, *nb, false);
     });
+    // field + schema metadata variant: default options, both dictionary modes, compact layout, one 3-row column
+    let mdcases: Vec<(usize, bool, bool)> = types.iter().enumerate().flat_map(|(ti, _)| [(ti, true, false), (ti, true, true), (ti, false, false), (ti, false, true)]).filter(|(ti, nl, _)| *nl || !matches!(types[*ti], DataType::Null)).collect();
+    let base_md = (5u64 << 40) + (1u64 << 39);
+    st.merge(par_for(ctx, "flight-md", mdcases.len() as u64, 8, |idx, st| {
+        let (ti, nullable, resend) = mdcases[idx as usize];
+        flight_case(st, base_md + idx, full, ti, &types[ti], nullable, &[0, 1, 2], Layout::Compact, &Opts::default(), &FlightCfg { max_size: None, resend, with_schema: true }, 1, true);
+    }));
     st.extra.insert("flight_configs".into(), json!(combos.iter().map(|(o, c, nb)| format!("{}|{}|{}batches", o.name(), c.name(), nb)).collect::<Vec<_>>()));
     st
 }
@@ -937,7 +1028,7 @@ fn replay(ctx: &Ctx, case: &Value) -> ! {
             let types = grid(full);
             let ty = case["ty"].as_u64().unwrap() as usize;
             let cfg = FlightCfg { max_size: case["cfg"]["max"].as_u64().map(|x| x as usize), resend: case["cfg"]["resend"].as_bool().unwrap(), with_schema: case["cfg"]["with_schema"].as_bool().unwrap() };
-            flight_case(&mut st, 0, full, ty, &types[ty], case["nullable"].as_bool().unwrap(), &idxs(&case["col_idx"]), layout_from_json(&case["layout"]), &Opts::from_json(&case["opts"]), &cfg, case["nbatches"].as_u64().unwrap_or(1) as usize);
+            flight_case(&mut st, 0, full, ty, &types[ty], case["nullable"].as_bool().unwrap(), &idxs(&case["col_idx"]), layout_from_json(&case["layout"]), &Opts::from_json(&case["opts"]), &cfg, case["nbatches"].as_u64().unwrap_or(1) as usize, case["md"].as_bool().unwrap_or(false));
         }
         s if s.starts_with("dict") => crate::dict::replay(ctx, case, &mut st),
         other => {
